@@ -90,13 +90,21 @@ type acct struct {
 func decodeLedger(ls []world.Leaf, v func(key, what string)) *ledger {
 	lg := &ledger{Provs: map[string]*prov{}, Acct: map[string]acct{}}
 	// storage-contract stake pools first: their key tells id and type of a storage provider
+	type cand struct {
+		p    *prov
+		used bool
+	}
+	cands := map[string][]*cand{}
 	for _, l := range ls {
 		k := world.Tap.KeyOf(l.Path)
-		for pfx, typ := range map[string]int{"blobber:stakepool:": provBlobber, "validator:stakepool:": provValidator} {
-			if !strings.HasPrefix(k, pfx) {
+		for _, pt := range []struct {
+			pfx string
+			typ int
+		}{{"blobber:stakepool:", provBlobber}, {"validator:stakepool:", provValidator}} {
+			if !strings.HasPrefix(k, pt.pfx) {
 				continue
 			}
-			id := k[len(pfx):]
+			id := k[len(pt.pfx):]
 			sp, offers, err := storagesc.VerifMinerscDecodeStakePool(l.Value)
 			if err != nil {
 				if v != nil {
@@ -104,10 +112,25 @@ func decodeLedger(ls []world.Leaf, v func(key, what string)) *ledger {
 				}
 				continue
 			}
-			p := &prov{ID: id, Type: typ, SC: storageSC, HasPool: true, Offers: uint64(offers), Pools: map[string]pool{}, Raw: l.Value}
+			p := &prov{ID: id, Type: pt.typ, SC: storageSC, HasPool: true, Offers: uint64(offers), Pools: map[string]pool{}, Raw: l.Value}
 			fillPool(p, sp)
-			lg.Provs[id] = p
+			cands[id] = append(cands[id], &cand{p: p})
 		}
+	}
+	storageNode := func(typ int, val []byte) (ok, killed, shut bool) {
+		if typ == provBlobber {
+			sn := &storagesc.StorageNode{}
+			if _, err := sn.UnmarshalMsg(val); err == nil {
+				h := storagesc.VerifMinerscBlobberProvider(sn)
+				return h.ProviderType == spenum.Blobber, h.HasBeenKilled, h.HasBeenShutDown
+			}
+			return
+		}
+		vn := &storagesc.ValidationNode{}
+		if _, err := vn.UnmarshalMsg(val); err == nil {
+			return vn.ProviderType == spenum.Validator, vn.HasBeenKilled, vn.HasBeenShutDown
+		}
+		return
 	}
 	for _, l := range ls {
 		if world.Tap.IsAccount(l.Path) {
@@ -123,39 +146,37 @@ func decodeLedger(ls []world.Leaf, v func(key, what string)) *ledger {
 			if _, err := c.UnmarshalMsg(l.Value); err == nil {
 				lg.SConf = c
 			}
-		case strings.HasPrefix(k, "provider:") && lg.Provs[k[len("provider:"):]] != nil:
-			p := lg.Provs[k[len("provider:"):]]
-			p.HasNode = true
-			if p.Type == provBlobber {
-				sn := &storagesc.StorageNode{}
-				if _, err := sn.UnmarshalMsg(l.Value); err == nil {
-					h := storagesc.VerifMinerscBlobberProvider(sn)
-					p.Killed, p.ShutDown = h.HasBeenKilled, h.HasBeenShutDown
-				}
-			} else {
-				vn := &storagesc.ValidationNode{}
-				if _, err := vn.UnmarshalMsg(l.Value); err == nil {
-					p.Killed, p.ShutDown = vn.HasBeenKilled, vn.HasBeenShutDown
-				}
-			}
 		case strings.HasPrefix(k, "provider:"):
-			mn := minersc.NewMinerNode()
-			if _, err := mn.UnmarshalMsg(l.Value); err != nil {
-				continue // a provider of another contract
+			id := k[len("provider:"):]
+			done := false
+			for _, c := range cands[id] {
+				if ok, killed, shut := storageNode(c.p.Type, l.Value); ok && !done {
+					c.p.HasNode, c.p.Killed, c.p.ShutDown, c.used, done = true, killed, shut, true, true
+					c.p.Raw = append(append([]byte{}, c.p.Raw...), l.Value...)
+					lg.Provs[id] = c.p
+				}
 			}
-			if mn.ProviderType != spenum.Miner && mn.ProviderType != spenum.Sharder {
-				// a storage provider node whose stake pool record is gone (or another contract's provider)
-				id := k[len("provider:"):]
-				lg.Provs[id] = &prov{ID: id, Type: int(mn.ProviderType), SC: storageSC, HasNode: true, Pools: map[string]pool{}, Raw: l.Value}
+			if done {
 				continue
 			}
-			p := &prov{ID: mn.ID, Type: int(mn.ProviderType), Killed: mn.SimpleNode.HasBeenKilled, ShutDown: mn.HasBeenShutDown, Staked: uint64(mn.TotalStaked),
-				Pools: map[string]pool{}, Raw: l.Value, SC: minerSC, HasNode: true, HasPool: true}
-			fillPool(p, mn.StakePool)
-			if "provider:"+mn.ID != k && v != nil {
-				v("harness:provider-key-mismatch", fmt.Sprintf("node under %s carries id %s", k, mn.ID))
+			mn := minersc.NewMinerNode()
+			if _, err := mn.UnmarshalMsg(l.Value); err == nil && (mn.ProviderType == spenum.Miner || mn.ProviderType == spenum.Sharder) {
+				p := &prov{ID: mn.ID, Type: int(mn.ProviderType), Killed: mn.SimpleNode.HasBeenKilled, ShutDown: mn.HasBeenShutDown, Staked: uint64(mn.TotalStaked),
+					Pools: map[string]pool{}, Raw: l.Value, SC: minerSC, HasNode: true, HasPool: true}
+				fillPool(p, mn.StakePool)
+				if "provider:"+mn.ID != k && v != nil {
+					v("harness:provider-key-mismatch", fmt.Sprintf("node under %s carries id %s", k, mn.ID))
+				}
+				lg.Provs[mn.ID] = p
+				continue
 			}
-			lg.Provs[mn.ID] = p
+			// a storage provider node without a stake pool record
+			for _, typ := range []int{provBlobber, provValidator} {
+				if ok, killed, shut := storageNode(typ, l.Value); ok && !done {
+					lg.Provs[id] = &prov{ID: id, Type: typ, SC: storageSC, HasNode: true, Killed: killed, ShutDown: shut, Pools: map[string]pool{}, Raw: l.Value}
+					done = true
+				}
+			}
 		case k == minersc.GlobalNodeKey:
 			gn := &minersc.GlobalNode{}
 			if _, err := gn.UnmarshalMsg(l.Value); err == nil {
@@ -169,6 +190,13 @@ func decodeLedger(ls []world.Leaf, v func(key, what string)) *ledger {
 				} else {
 					lg.Sharders = ids
 				}
+			}
+		}
+	}
+	for id, cs := range cands {
+		for _, c := range cs {
+			if !c.used {
+				lg.Provs[fmt.Sprintf("orphan-stakepool:%d:%s", c.p.Type, id)] = c.p
 			}
 		}
 	}
